@@ -13,3 +13,5 @@ def run_deductive(rep):
     except ImportError:
         pass
     verify.verify_many(rep, items)
+    from ..static import frames
+    frames.report(rep, classes=["GridSearch"], conditions=("F4", "F5", "F6"))      # delegation after any history: predict / predict_proba keep no private state (frame conditions F5/F6), fit returns self
